@@ -1196,3 +1196,23 @@ Definition int_new (s : str) (radix : Z) : option Z :=
 Definition radix_of (verb : N) : Z :=
   if N.eqb verb 98 || N.eqb verb 66 then 2 else if N.eqb verb 111 then 8
   else if N.eqb verb 120 || N.eqb verb 88 then 16 else 10.
+
+(* the two dispatches of the constructor (integertype.go:63-106):
+     Integer.new(Convertible, Optional Radix, Optional Boolean)                     positional
+     Integer.new(Struct[{from => Convertible, Optional[radix] => Radix, Optional[abs] => Boolean}])   named
+   Both demand the Convertible pattern of the string and a Radix out of {2, 8, 10, 16} (anything else is
+   no call: argument mismatch), call intFromConvertible(from, radix) and negate a negative result
+   under abs => true (int64 negation wraps at MinInt64). *)
+Inductive ctor_form := CPositional | CNamed.
+
+Definition radix_ok (r : Z) : bool := (r =? 2) || (r =? 8) || (r =? 10) || (r =? 16).
+
+Definition int_ctor (form : ctor_form) (s : str) (radix : Z) (abs : option bool) : option Z :=
+  if radix_ok radix then
+    match int_new s radix with
+    | Some n =>
+      let a := match abs with Some true => true | _ => false end in
+      Some (if a && (n <? 0) then wrap64 (- n) else n)
+    | None => None
+    end
+  else None.
